@@ -432,11 +432,17 @@ func CDSRegion2fromGFF(fs []gff.Feature, refSeqDegapped string) (Region, error) 
 	pos := make([]int, 0)
 	switch fs[0].Strand {
 	case "+":
-		for _, f := range fs {
+		for k, f := range fs {
 			if f.Strand != "+" {
 				return r, errors.New("Error parsing gff: mixed strands within a single ID")
 			}
-			for i := f.Start + f.Phase; i <= f.End; i++ {
+			// the phase of the first row says where the first codon starts; the phases of
+			// the following rows only restate the reading frame that the rows before them set
+			phase := 0
+			if k == 0 {
+				phase = f.Phase
+			}
+			for i := f.Start + phase; i <= f.End; i++ {
 				pos = append(pos, i)
 			}
 		}
@@ -459,7 +465,12 @@ func CDSRegion2fromGFF(fs []gff.Feature, refSeqDegapped string) (Region, error) 
 			if f.Strand != "-" {
 				return r, errors.New("Error parsing gff: mixed strands within a single ID")
 			}
-			for i := f.End - f.Phase; i >= f.Start; i-- {
+			// (see above: only the 5'-most row's phase skips bases)
+			phase := 0
+			if j == len(fs)-1 {
+				phase = f.Phase
+			}
+			for i := f.End - phase; i >= f.Start; i-- {
 				pos = append(pos, i)
 			}
 		}
